@@ -59,6 +59,9 @@ def reeval(names):
         for name, out in ex.map(sub, names):
             mp = os.path.join(VERIF, "benign", name, "meta.json")
             m = json.load(open(mp))
+            if os.environ.get("VB_PIDS") and isinstance(out, dict) and isinstance(m.get("checks"), dict):
+                # a restricted re-evaluation replaces the results of the evaluated checks only
+                out = {**{k: v for k, v in m["checks"].items() if k not in PIDS}, **out}
             m["checks"] = out
             json.dump(m, open(mp, "w"), indent=1)
             if out is None:
